@@ -279,6 +279,10 @@ func checkC03(c *Ctx) {
 
 	c.Rule("R9", "replies are relayed byte for byte: a multi-key reply is assembled from the children's replies without a copy that turns an empty string into the null bulk or back (shared with C10.R9)")
 	checkTextNilness(c, "R9")
+	c.Rule("R11", "a service without a compression section relays values byte for byte (shared with C13.R12): the decompression hook is registered only when a compression configuration exists")
+	checkDecompressOnlyWhenConfigured(c, "R11")
+	c.Rule("R10", "values are relayed as values (shared with C04.R1): the redirect / cluster-down classification of a backend reply is applied to error replies only, to the first word of the error text, case-insensitively")
+	c.withAlias(map[string]string{"R1": "R10", "R2": "", "R3": "", "R4": "", "R5": "", "R6": "", "R7": "", "R8": ""}, func() { checkC04(c) })
 	c.Rule("R8", "every reply shape is relayed, one message after the other: the decoder's nesting counter is balanced on every path (shared with C11.R4), so no sequence of replies (null arrays included) makes a later well-formed reply fail")
 	c.withAlias(map[string]string{"R4": "R8"}, func() { checkRecursion(c, inputCone(p)) })
 
